@@ -198,6 +198,7 @@ class Future:
         self.pending = True
         self.owner = None
         self.exception_set = False
+        self.result_set = False  # ghost: completed by set_result (as opposed to cancelled / failed)
 
     def done(self):
         return not self.pending
@@ -208,6 +209,7 @@ class Future:
     def set_result(self, value):
         require(self.pending, "set_result-on-a-pending-future (InvalidStateError otherwise)")
         self.pending = False
+        self.result_set = True
         if self.owner is not None:
             self.owner.pending = self.owner.pending - 1
 
@@ -319,6 +321,14 @@ class AsyncioTransport:
 
     def close(self):
         self.closing = True
+
+    def pause_reading(self):
+        if nondet_bool():
+            raise NotImplementedError
+        return None
+
+    def resume_reading(self):
+        return None
 
     def can_write_eof(self):
         return nondet_bool()
